@@ -98,8 +98,8 @@ def frames_of(out):
     fr = []
     for t in out.split():
         if t.startswith("F:"):
-            _, h, ident = t.split(":")
-            fr.append((impl.unhx(h), ident))
+            parts = t.split(":", 3)
+            fr.append((impl.unhx(parts[1]), parts[2]))
     return fr
 
 
@@ -414,8 +414,8 @@ def o_same_as(out, a, ctx):
     fa = [x for x in out.split() if x.startswith("F:")]
     fb = [x for x in other.split() if x.startswith("F:")]
     if a.get("strip_crc"):
-        fa = [x.split(":")[1][:-6] + ":" + x.split(":")[2] for x in fa]
-        fb = [x.split(":")[1][:-6] + ":" + x.split(":")[2] for x in fb]
+        fa = [x.split(":", 3)[1][:-6] + ":" + ":".join(x.split(":", 3)[2:]) for x in fa]
+        fb = [x.split(":", 3)[1][:-6] + ":" + ":".join(x.split(":", 3)[2:]) for x in fb]
     if a.get("raw_only"):
         fa = [x.split(":")[1] for x in fa]
         fb = [x.split(":")[1] for x in fb]
@@ -551,10 +551,25 @@ def mixed_stream(ctx, nitems=None, kinds=None, adversarial=False):
 def adversarial_stream(ctx):
     rng = ctx.rng
     parts = []
+    goods = []
     for _ in range(rng.randint(1, 6)):
-        k = rng.choice(["good", "good", "dmg", "trunc", "noise", "sync", "nmea", "badnmea", "ubx", "nested", "fakehdr", "zero", "resframe"])
+        k = rng.choice(["good", "good", "dmg", "trunc", "noise", "sync", "nmea", "badnmea", "ubx", "nested", "fakehdr", "zero", "resframe", "dmgcopy", "dmgcopy"])
+        if k == "dmgcopy" and not goods:
+            k = "good"
         if k == "good":
             parts.append(good_frames(ctx, 1)[0])
+            goods.append(parts[-1])
+        elif k == "dmgcopy":
+            # a copy of a frame delivered earlier in this stream, damaged in one region only:
+            # payload (header and checksum bytes intact), checksum bytes only, or an exact repeat
+            f = bytearray(rng.choice(goods))
+            where = rng.choice(["payload", "payload", "crc", "none"]) if len(f) > 6 else rng.choice(["crc", "none"])
+            if where == "payload":
+                for _j in range(rng.randint(1, 3)):
+                    f[rng.randrange(3, len(f) - 3)] ^= 1 << rng.randrange(8)
+            elif where == "crc":
+                f[rng.randrange(len(f) - 3, len(f))] ^= 1 << rng.randrange(8)
+            parts.append(bytes(f))
         elif k == "dmg":
             parts.append(gens.damage(rng, good_frames(ctx, 1)[0])[0])
         elif k == "trunc":
@@ -1092,6 +1107,22 @@ def cases_C17(ctx):
         g = f[:-3] + bytes(b ^ 0x5A for b in f[-3:])
         cs.append(case("parse 0 1 " + hx(g), "static-noval",
                        ("parse_same", {"other_line": "parse 1 1 " + hx(f), "what": "validate=0 decodes a wrong-checksum frame differently", "expect_ok": True})))
+    # ... under every label option, on messages whose decoding depends on it (MSM with cells), with right
+    # and wrong checksum bytes; and through the reader (frame events carry a digest of the attributes)
+    for e, r, mode, sats, sigs, cells in msm_cases(ctx, ctx.n(49, 49 * 6)):
+        f = frame(r["payload"])
+        g = f[:-3] + bytes(b ^ rng.randint(1, 255) for b in f[-3:])
+        for lab in (1, 2):
+            for fr, tag in ((g, "wrongcrc"), (f, "rightcrc")):
+                cs.append(case("parse 0 %d %s" % (lab, hx(fr)), "static-noval:msm:lab%d:%s" % (lab, tag),
+                               ("parse_same", {"other_line": "parse 1 %d %s" % (lab, hx(f)),
+                                               "what": "validate=0 decodes the frame differently from validate=1 under label option %d" % lab,
+                                               "expect_ok": True})))
+            q = rng.choice([0, 1, 2])
+            cs.append(case(reader_line(0, q, lab, True, True, "-", g + f), "noval:msm:lab%d:q%d" % (lab, q),
+                           ("same_as", {"other_line": reader_line(1, q, lab, True, True, "-", f + f), "strip_crc": True,
+                                        "what": "validate=0 under label option %d returns differently decoded frames than validate=1" % lab}),
+                           {"handler": True}))
     return cs
 
 
